@@ -7,6 +7,7 @@ V = os.path.dirname(os.path.dirname(os.path.abspath(__file__)))
 CLAIMS = {
  # id: (category, text, note, technique, design_ref)
  "C01": ("proof",
+         "[session 3d] Also: a template that enable_all_breakpoints installed is no longer a not-installed template (one breakpoint lives in one table); step_out_frame removes only the temporary breakpoint it planted itself; continue_execution moves the focus to the thread that hit the breakpoint. "
          "[session 3c] Also: Verus proof on the real BreakpointRegistry::add_and_enable / get_enabled / add_uninit (vstd HashMap): the new breakpoint is stored under its address after the one it replaces was disarmed and it was armed itself, nothing else changes, an error leaves the table unchanged. "
          "[session 3b] Also: Verus proof on the real continue_execution (extracted whole) that its dispatch table holds at every exit of the event loop: it leaves the loop with a breakpoint event only for a user breakpoint after exactly one on_breakpoint hook for that pc, or for a temporary breakpoint without a hook; with exit/signal/watchpoint events only after their hook; and it goes on silently only for internal breakpoints (entry point, linker map, transparent) or a signal stop of a finished debuggee. "
          "[session 3] Also: Verus proof that the real Debugger::step_over_breakpoint re-arms the breakpoint it stepped off on every successful return (local ghost flag, assert before every Ok exit), and a Kani proof that the TRAP_BRKPT arm of apply_new_status attributes the stop to the thread that trapped, at the rewound pc, marks it stopped and starts one group stop on its behalf. "
@@ -40,6 +41,7 @@ CLAIMS = {
          "(std sort in the parser); PlaceDescriptor.file lookup dropped; prolog_start_place (gimli) external.",
          "Verus contracts on mechanically extracted real functions", "2/C04"),
  "C05": ("proof",
+         "[session 3d] Also: the unwind loop's cycle guard distinguishes activations by (return address, CFA), restore_registers_at_frame resolves every frame's pc against that frame's own object, and frame_info reports the return address of the SELECTED frame (backtrace[k+1]). "
          "[session 3c] Also: Verus proof that restore_registers_at_frame walks exactly frame_num frames up the chain before it copies the registers. "
          "[session 3b] Also: Verus proofs that the CFI lookups of UnwindContext::new (.eh_frame and the .debug_frame fallback) are handed the file-relative pc (address-space typing), and that the register+offset CFA rule of evaluate_cfa computes register value + signed offset. "
          "Kani/CBMC proofs, complete over all register values, of the register carriage used by the unwinder: the DWARF register "
@@ -77,6 +79,7 @@ CLAIMS = {
          "recorded preconditions: read_n <= isize::MAX, addr <= i64::MAX (DAP path), len <= cap for the deque ring.",
          "Verus implicit obligations on mechanically extracted real functions", "2/C08"),
  "C13": ("proof",
+         "[session 3d] Also: the record of a verified source / function breakpoint holds EVERY location the debugger installed for it (found and repaired: fix bc7cedb, a source breakpoint on a line of a generic function kept only its first location, the others survived the next setBreakpoints and ignored logMessage/condition). "
          "[session 3c] Also: record_breakpoint_hit counts every arrival once (saturating) and judges the new count with the record's own options. "
          "[session 3b] Also: Verus proofs of the replace protocol of handle_set_breakpoints / set_instruction / set_function breakpoints (the set that is removed from the debugger is the one stored under the same key / of the same kind; other kinds untouched; loop bodies outlined), of the stop filter loop of emit_stop_reason (the stop that is announced passed the exception filter and was not skipped; the debuggee is resumed once per filtered stop), of literal_truthy and of the evaluation order of evaluate_condition_expression. "
          "[session 3] Also: Verus proofs that the three record predicates of with_breakpoint_record_mut match a record iff the stop address is ANY of its addresses (first match), that should_skip_breakpoint decides exactly as the property says (condition false => skip silently; hit condition not met => skip; logpoint => log once and skip; otherwise stop) and that BreakpointRegistry::remove_by_addr removes whatever is registered under the address (installed or not) and nothing else. "
@@ -97,6 +100,7 @@ CLAIMS = {
          "iteration is outside CBMC's reach) so the per-thread fan-out loop is unverified; Intel SDM semantics assumed.",
          "Kani function-level proofs on the real crate (stubs for ptrace), full-domain symbolic inputs", "2/C14"),
  "C15": ("proof",
+         "[session 3d] Also: set_register_value writes the register file of the thread in focus (the one get_register_value reads); a composite setVariable drops the item's cached child snapshot and unlinks its child reference; Kani proof that the char arm of serialize_scalar_value writes the code point as a little-endian u32 for every char (bare or quoted). "
          "Verus proofs (unbounded: any address, length, alignment) that the real read_memory_by_pid returns exactly m[addr..addr+n] and "
          "that the real write_bytes changes exactly [addr, addr+n) to the given bytes and nothing else, also on error; that the "
          "disassembly mask shows the original byte for every breakpoint inside the function and touches nothing else; Kani proofs that "
@@ -117,6 +121,7 @@ CLAIMS = {
          "psABI 3.2.3 register order typed into the harness as oracle.",
          "Kani proofs on the real crate, full-domain symbolic values", "2/C16"),
  "C18": ("proof",
+         "[session 3d] Also: reload_plan drops every registered object that the new link map does not list (computed from the registered files, not only the mapped ones); the DW_OP_addr relocation uses the load offset of the focused frame's object; enable_all_breakpoints as a whole leaves exactly the unresolvable templates registered (frame around the per-template loop). "
          "[session 3c] Also: find_by_addr / find_mapping_offset return the debug info / load offset stored under the path of the region that contains the address. "
          "[session 3b] Also: Verus proof on the per-object body of update_mappings: the load offset of an object is the lowest start of its maps lines and its region ends at start+size of the highest one, both recorded under the object's path. "
          "[session 3] Also: Verus proofs that UninitBreakpoint::try_into_brkpt resolves a file-less address template against the object that contains the address (so a run-time address maps back to itself: into_global then relocate_to_segment), and that refresh_deferred keeps a deferred request exactly as long as it has not been installed. "
@@ -135,6 +140,7 @@ CLAIMS = {
          "psABI Fig. 3.36 typed into the harness as oracle.",
          "Kani proofs on the real crate, full-domain symbolic inputs", "2/C19+C05"),
  "C11": ("proof",
+         "[session 3d] Also: WatchpointRegistry::remove records the debug-register image without the removed watchpoint as the state new threads inherit; the process template remembered for an attached process holds the command line without argv[0]. "
          "[session 3b] Also: Verus proof on the per-template body of enable_all_breakpoints that a breakpoint whose code is not mapped yet stays registered (found and repaired: fix ea880a9, breakpoints in dlopen'ed libraries were dropped by restart). "
          "[session 3] Also: Verus proofs on the real Drop::drop (launched process killed and reaped in every state; attached process released with all LIVE threads detached, no patch, no armed debug register, SIGCONT iff something was released), Debugger::restart_debugee (the new process is created only when the old one is gone; exactly one new process) and the per-breakpoint body of disable_all_breakpoints (user/entry breakpoints survive as one template keyed by the load-independent address with their number). "
          "Verus proof of the real Debugger::detach against a ghost protocol model: the threads are released with PTRACE_DETACH only "
@@ -145,6 +151,7 @@ CLAIMS = {
          "errors of the two clean-up calls are ignored by the code and not modelled.",
          "Verus modular proof with ghost protocol state on the extracted real function", "8.4/C11"),
  "C12": ("proof",
+         "[session 3d] Also: handle_launch / handle_attach re-arm the `terminated` latch before the first drain, so nothing the new debuggee announces is discarded; emit_stop_reason never queues thread events into the batch that carries `exited` (they would be thrown away), announces an exit once and a stop once per epoch. "
          "[session 3c] Also the handlers restart, pause, terminate, disconnect, step_in, step_out: at most one response, exactly one when they return Ok. "
          "[session 3] Also: Verus proofs on the real send_response_raw / send_event_raw (sequence number = shared counter, request_seq and command of the request, counter advanced once) and on the dispatch loop run: for every request read exactly one response is written (against the dispatch contract 'a handler answers at most once and may fail afterwards', itself proved for handle_continue) -- this unit found the double response repaired by fix de3da29. "
          "Verus proof (any batch of queued events, any earlier history) of the real DebugSession::drain_events against a ghost record "
@@ -156,6 +163,7 @@ CLAIMS = {
          "InternalEvent reduced to the variants the function distinguishes.",
          "Verus modular proof with ghost wire history on the extracted real function", "4.1/C12"),
  "C10": ("proof",
+         "[session 3d] Also: Tracer::resume keeps every thread with a queued signal stopped while one signal is injected (asserted against the real exclude list). "
          "[session 3b] Also: Verus proofs on the real cont_stopped_ex / cont_stopped (sequence model of the thread table): only the requested thread, if stopped and not excluded, receives the requested signal, at most once. One defect is recorded as a KNOWN FINDING, not repaired (see known_findings.json / DESIGN 8.14): stepi at a signal stop followed by a second signal loses the first signal. "
          "[session 3] Also: Verus proof on the real Tracer::single_step (extracted whole, ghost ledger arrived/delivered) that every signal the debugger intercepts is delivered once or queued once (multiset balance) -- this unit found the quiet-signal double delivery repaired by fix c8e7fb7. "
          "Kani/CBMC proofs over all 31 signals that the quiet and transparent tables are exactly the sets of the property statement and "
